@@ -2553,6 +2553,11 @@ def c12_positive(ctx, kind, pre=False):
             return
         r, fs = v
         ctx.cover("extraction succeeds", r.variant == "Ok")
+        if fs.violations:
+            op, p_, why = fs.violations[0]
+            ctx.fail("extraction makes a call that can act outside the target directory: %s (%s)" % (op, why), "Package::extract", kind="c12escape", dir=b"/".hex(),
+                     files=[[kind, (b"/" + model_bytes(e, inp["nm"])).hex()]])
+            return
         if r.variant != "Ok":
             return
         want_path = [z3.BitVecVal(c, 8) for c in b"/t/"] + list(inp["nm"])
@@ -2575,9 +2580,10 @@ def c12_positive(ctx, kind, pre=False):
             elif ops[-1][2] is None or e._check(ops[-1][2].e != z3.ZeroExt(16, inp["perm"])):
                 bad = "the permission bits set are not the archived ones"
         else:
-            if not names or names[-1] != "symlink":
-                bad = "a symbolic link is not created at target+path (calls there: %s)" % names
-            elif len(ops[-1][2]) != 2 or e._check(z3.Not(z3.And([x == y for x, y in zip(ops[-1][2], inp["link"])]))):
+            ln = [o for o in ops if o[0] == "symlink"]
+            if not ln or (names.index("symlink") < len(names) - 1 and any(n in ("remove_file", "create_file", "create_dir_all", "create_dir") for n in names[names.index("symlink") + 1:])):
+                bad = "a symbolic link is not created (and left in place) at target+path (calls there: %s)" % names
+            elif len(ln[-1][2]) != 2 or e._check(z3.Not(z3.And([x == y for x, y in zip(ln[-1][2], inp["link"])]))):
                 bad = "the link target is not the archived one"
         if bad:
             ctx.fail("extraction succeeds but " + bad, "Package::extract", kind="c12positive", fkind=kind, pre=pre)
